@@ -62,6 +62,12 @@ class Node:
         asyncio.set_event_loop(self.loop)
         self.prot = sd.ServiceDiscoveryProtocol(sdenv.MC, timings=net.timings)
         self.prot.transport = sdenv.FakeTransport(lambda data, addr: net.send(self, data, addr), NODE_ADDR[name])
+        # a stack that has been up for a long time: its outgoing session counters (multicast and towards the peer) have already
+        # wrapped once (reboot flag cleared) and are about to wrap again
+        for _ in range(net.burn if net.first_boot.get(name, True) else 0):
+            self.prot.session_storage.assign_outgoing(None)
+            self.prot.session_storage.assign_outgoing(NODE_ADDR["wat" if name == "srv" else "srv"])
+        net.first_boot[name] = False
         self.inst = None
         if name == "srv":
             service = sdenv.service("s1", eventgroups=frozenset([1]), options_1=(sdenv.EP["e1"],))
@@ -100,7 +106,9 @@ class _WatL(sd.ClientServiceListener):
 
 
 class Net:
-    def __init__(self, tc, sub_ttl, refresh):
+    def __init__(self, tc, sub_ttl, refresh, burn=0):
+        self.burn = burn
+        self.first_boot = {}
         self.timings = sdenv.timings(INITIAL_DELAY_MIN=tc["initMin"], INITIAL_DELAY_MAX=tc["initMax"], REPETITIONS_MAX=tc["reps"],
                                      REPETITIONS_BASE_DELAY=tc["base"], CYCLIC_OFFER_DELAY=tc["cyclic"], ANNOUNCE_TTL=tc["annTTL"],
                                      SEND_COLLECTION_TIMEOUT=tc["collect"], REQUEST_RESPONSE_DELAY_MIN=tc["rrMin"],
